@@ -765,8 +765,14 @@ fn handle(g: &mut Global, req: &Request, t_recv: u64) -> Exchange {
                 }
                 // url
                 let purl = prot.get("url").and_then(|v| v.as_str()).unwrap_or("");
-                setv(&mut j, "url_ok", purl == url);
-                if purl != url {
+                // (account URLs may be issued under another spelling of the host name: the request then names that spelling)
+                let alt_host = cfg_str(ca, "account_url_host", "");
+                let alt_ok = !alt_host.is_empty() && res == "acct" && {
+                    let port = base.rsplit(':').next().unwrap_or("");
+                    purl == format!("http://{alt_host}:{port}{path}")
+                };
+                setv(&mut j, "url_ok", purl == url || alt_ok);
+                if purl != url && !alt_ok {
                     j.problems.push(format!("protected url {purl:?} != request url {url:?}"));
                     if j.reject.is_none() {
                         j.reject = Some(problem(Some("unauthorized"), 401, "url mismatch"));
@@ -1101,7 +1107,15 @@ fn handle(g: &mut Global, req: &Request, t_recv: u64) -> Exchange {
                     let contacts = p.get("contact").and_then(|v| v.as_array()).map(|a| a.iter().filter_map(|c| c.as_str().map(String::from)).collect()).unwrap_or_default();
                     let a = Acct {
                         id,
-                        url: format!("{base}/{ca_name}/acct/{id}"),
+                        url: {
+                            let alt_host = cfg_str(ca, "account_url_host", "");
+                            if alt_host.is_empty() {
+                                format!("{base}/{ca_name}/acct/{id}")
+                            } else {
+                                // same server, host name written differently (upper case, ...): the account URL is this very string
+                                format!("http://{alt_host}:{}/{ca_name}/acct/{id}", base.rsplit(':').next().unwrap_or(""))
+                            }
+                        },
                         jwk: j.protected["jwk"].clone(),
                         thumbprint: thumb,
                         contacts,
